@@ -273,7 +273,7 @@ impl Property for C03 {
     }
 
     fn budget(tier: Tier) -> u64 {
-        tier.pick(12_000, 100_000)
+        tier.pick(12_000, 18_000)
     }
 
     fn rule() -> &'static str {
